@@ -12,7 +12,7 @@ let next_mgs () =
   let mult = next_nat () in
   let parts = if next_bool () then Some (next_list (fun () -> next_list next_q)) else None in
   { mg_numbers = nums; mg_total = total; mg_int = isint; mg_mult = mult; mg_parts = parts }
-let () = register "mgs" (fun () -> let k = next_nat () in let i = next_mgs () in print_milp (encode_mgs i k))
+let () = register "mgsenc" (fun () -> let k = next_nat () in let i = next_mgs () in print_milp (encode_mgs i k))
 (* mgspre: remove, numbers, total ->  the numbers kept *)
 let () = register "mgspre" (fun () ->
   let rm = next_bool () in let nums = next_list next_q in let total = next_q () in
@@ -22,9 +22,9 @@ let () = register "mgsloop" (fun () ->
   let lb = next_nat () in let n = next_nat () in
   let st = next_list (fun () -> let k = next () in let b = next () in (k, b)) in
   let status k = (try (match List.assoc (int_of_nat k) st with 0 -> MgOptimal | 1 -> MgInfeasible | _ -> MgOther) with Not_found -> MgOther) in
-  let (tried, res) = mgs_loop status lb n in
+  let (tried, res) = mgsm_loop status lb n in
   Printf.printf "T %s | R %s | RANGE %s\n" (s_nats tried)
-    (match res with Some k -> string_of_int (int_of_nat k) | None -> "none") (s_nats (mgs_range lb n)))
+    (match res with Some k -> string_of_int (int_of_nat k) | None -> "none") (s_nats (mgsm_range lb n)))
 (* pyint num den *)
 let () = register "pyint" (fun () -> let x = next_q () in Printf.printf "I %d\n" (int_of_z (py_int x)))
 let () = register "pyround" (fun () -> let x = next_q () in Printf.printf "I %d\n" (int_of_z (py_round_half_even x)))
